@@ -9,7 +9,8 @@ trVars == <<l, vm, refs>>
 NoVm == [regs |-> <<>>, mem |-> <<>>, slen |-> 0, env |-> <<>>, frames |-> <<>>, glimit |-> "0", txlen |-> 0, done |-> FALSE,
          code |-> <<>>, cbal |-> <<>>, inputs |-> {}, nrc |-> 0, opv |-> <<>>, blobs |-> <<>>, outs |-> <<>>,
          led |-> [mint |-> <<>>, burn |-> <<>>, msg |-> "0"], bal0 |-> <<>>, fee |-> <<>>, outs0 |-> <<>>, cbal0 |-> <<>>, fin |-> <<>>,
-         kv |-> <<>>, kv0 |-> <<>>, warm |-> {}, stok |-> FALSE]                      \* C33 (VmStorage)
+         kv |-> <<>>, kv0 |-> <<>>, warm |-> {}, stok |-> FALSE,                      \* C33 (VmStorage)
+         chain |-> <<>>]                                                              \* vmcrypto (block / environment instructions)
 TrInit == l = 1 /\ vm = NoVm /\ refs = <<>>
 e == Rec[l]
 
@@ -141,7 +142,8 @@ TInit ==
               outs0 |-> IF Has(e, "outs") THEN e.outs ELSE <<>>,
               cbal0 |-> IF Has(e, "contracts") THEN [c \in DOMAIN e.contracts |-> e.contracts[c].bal] ELSE <<>>, fin |-> <<>>,
               kv |-> IF Has(e, "kv") THEN KvOf(e.kv) ELSE <<>>, kv0 |-> IF Has(e, "kv") THEN KvOf(e.kv) ELSE <<>>,   \* C33: storage contents
-              warm |-> {}, stok |-> Has(e, "kv")]
+              warm |-> {}, stok |-> Has(e, "kv"),
+              chain |-> IF Has(e, "chain") THEN e.chain ELSE <<>>]                            \* vmcrypto: the chain oracle's answers
     /\ e.regs[HP + 1] = BN!FromNat(e.hp)
     \* C33: a later transaction starts from the storage the previous one left
     /\ ((Has(e, "cont") /\ e.cont /\ Has(e, "kv")) => (vm.stok /\ KvOf(e.kv) = vm.kv))
@@ -185,6 +187,10 @@ ExactExec(v, eff, oregs, omem) ==
             /\ PanicRegsOk(v, eff, e.reason, oregs)
       [] OTHER -> FALSE
 
+\* vmcrypto: the driver's independent expectation about the result of a cryptographic instruction (Step field `exp`: the signer's
+\* key of a signature it produced itself, the verdict for a signature it corrupted, ...) must hold for a completed instruction
+CrExpOk(v, oregs, omem) == (Has(e, "exp") /\ e.out = "proceed") => CrExpHolds(e.exp, e.word, v, oregs, omem)
+
 TStepExec ==
     /\ IsEv(l, "Step")
     /\ e.mode = "exec"
@@ -194,7 +200,8 @@ TStepExec ==
        IN /\ GasMonotone(v.regs, oregs)
           /\ ConstRegsKept(oregs)
           /\ C30Step(v)
-          /\ \E eff \in Effs(v, e.word) :
+          /\ CrExpOk(v, oregs, omem)
+          /\ \E eff \in Effs(CrWithOrc(v, oregs, omem), e.word) :
                 /\ (eff.x => IF IsSt(e.word) THEN StExec(v, eff, oregs, omem) ELSE ExactExec(v, eff, oregs, omem))
                 /\ (e.out # "panic" => StdOk(v, eff))
                 /\ vm' = IF e.out = "panic" THEN StUnknownIf(IsSt(e.word), [v EXCEPT !.regs = oregs, !.mem = omem, !.slen = e.slen])
@@ -250,7 +257,7 @@ TStepRun ==
           /\ ConstRegsKept(oregs)
           /\ C30Step(v)
           /\ (fp = {} => e.word = Fetched(v))
-          /\ \E eff \in (IF fp = {} THEN Effs(v, e.word) ELSE {Unmodelled}) :
+          /\ \E eff \in (IF fp = {} THEN Effs(CrWithOrc(v, oregs, omem), e.word) ELSE {Unmodelled}) :
              IF ~Has(e, "fin")
              THEN \* the instruction completed and execution continues
                   /\ fp = {}
